@@ -478,3 +478,164 @@ def locate(tree, rel, qual, _depth=0):
     if r is None:
         raise AnalysisError("anchor method %s vanished from %s (also not found through the MRO)" % (qual, rel))
     return r[0].rel, r[2]
+
+
+# ----------------------------------------------------------------------------
+# spin-slot mirror symmetry of the unrestricted integrators / gradients
+# ----------------------------------------------------------------------------
+_SPIN_PAIRS = {"a": "b", "b": "a", "alpha": "beta", "beta": "alpha", "up": "dn", "dn": "up", "down": "up"}
+_SPIN_CH0 = {"a", "alpha", "up"}
+
+
+def _spin_flip(name, idents):
+    """(partner identifier, channel of `name`) when swapping one spin tag of `name` (a token a/b, alpha/beta,
+    up/dn, or a token ending in a/b such as rhoa, wvb, dma) gives another identifier of the same function"""
+    toks = name.split("_")
+    out = []
+    for i, t in enumerate(toks):
+        cand = None
+        if t in _SPIN_PAIRS:
+            cand = (_SPIN_PAIRS[t], 0 if t in _SPIN_CH0 else 1)
+        elif len(t) > 1 and t[-1] in "ab":
+            cand = (t[:-1] + ("b" if t[-1] == "a" else "a"), 0 if t[-1] == "a" else 1)
+        if cand:
+            n2 = "_".join(toks[:i] + [cand[0]] + toks[i + 1:])
+            if n2 in idents and n2 != name:
+                out.append((n2, cand[1]))
+    return out[0] if len(out) == 1 else None
+
+
+def _first_index(sub):
+    f = sub.slice.elts[0] if isinstance(sub.slice, ast.Tuple) and sub.slice.elts else sub.slice
+    if isinstance(f, ast.Constant) and isinstance(f.value, int) and not isinstance(f.value, bool):
+        return f
+    return None
+
+
+def spin_context(fns):
+    """per function: (spin-tagged names -> (partner, channel), arrays whose FIRST axis is the spin channel).
+    Evidence for a spin-first array: literal first indices are exactly {0, 1} in some analysed function of the
+    module, or it is allocated with a leading 2, or it is the argument of _format_uks_dm.  Tagged arrays
+    (wva/wvb) and arrays only ever indexed with one literal (rho_a[0]: a density row) are not spin arrays."""
+    per, module_spin = {}, set()
+    for fn in fns:
+        idents = {n.id for n in ast.walk(fn) if isinstance(n, ast.Name)} | {a.arg for a in fn.args.args}
+        tag = {}
+        for n in idents:
+            fl = _spin_flip(n, idents)
+            if fl:
+                tag[n] = fl
+        first = {}
+        local = set()
+        for n in ast.walk(fn):
+            if isinstance(n, ast.Subscript) and isinstance(n.value, ast.Name):
+                f = _first_index(n)
+                if f is not None:
+                    first.setdefault(n.value.id, set()).add(f.value)
+            if isinstance(n, ast.Assign) and isinstance(n.value, ast.Call):
+                cn = pf.call_name(n.value) or ""
+                if cn.split(".")[-1] == "_format_uks_dm" and n.value.args and isinstance(n.value.args[0], ast.Name):
+                    local.add(n.value.args[0].id)
+                if cn.split(".")[-1] in ("zeros", "empty", "ones") and n.value.args \
+                        and isinstance(n.value.args[0], ast.Tuple) and n.value.args[0].elts \
+                        and isinstance(n.value.args[0].elts[0], ast.Constant) and n.value.args[0].elts[0].value == 2:
+                    local |= {t.id for t in n.targets if isinstance(t, ast.Name)}
+        local |= {k for k, v in first.items() if v == {0, 1}}
+        per[id(fn)] = [tag, local - set(tag), first]
+        module_spin |= {k for k, v in first.items() if v == {0, 1} and k not in tag}
+    for fn in fns:
+        tag, local, first = per[id(fn)]
+        # a name that is a spin array elsewhere in the module and is only indexed with 0/1 here
+        local |= {k for k in module_spin if k not in tag and first.get(k, set()) <= {0, 1} and k in first}
+        per[id(fn)] = (tag, local)
+    return per
+
+
+def spin_units(fn, tag, spin_arr):
+    """Statements (or their right-hand sides, when the targets carry no spin information) that address exactly
+    one spin channel through a literal spin slot of a spin-first array or a literal `spin=` keyword
+    -> [(channel, text, mirrored text, statement)]"""
+    import copy
+    from sa.core import norm_text
+
+    def slots(node):
+        out = []
+        for n in ast.walk(node):
+            if isinstance(n, ast.Subscript) and isinstance(n.value, ast.Name) and n.value.id in spin_arr:
+                f = _first_index(n)
+                if f is not None and f.value in (0, 1):
+                    out.append(f)
+            if isinstance(n, ast.keyword) and n.arg == "spin" and isinstance(n.value, ast.Constant) \
+                    and n.value.value in (0, 1) and not isinstance(n.value.value, bool):
+                out.append(n.value)
+        return out
+
+    def channels(node):
+        ch = {c.value for c in slots(node)}
+        ch |= {tag[n.id][1] for n in ast.walk(node) if isinstance(n, ast.Name) and n.id in tag}
+        return ch
+
+    def mirror(node):
+        n2 = copy.deepcopy(node)
+        for c in slots(n2):
+            c.value = 1 - c.value
+        for n in ast.walk(n2):
+            if isinstance(n, ast.Name) and n.id in tag:
+                n.id = tag[n.id][0]
+        return n2
+
+    out = []
+    for st in ast.walk(fn):
+        if isinstance(st, ast.Assign):
+            node = st if any(channels(t) for t in st.targets) else st.value
+        elif isinstance(st, ast.AugAssign):
+            node = st
+        elif isinstance(st, ast.Expr) and isinstance(st.value, ast.Call):
+            node = st.value
+        else:
+            continue
+        todo = [node]
+        while todo:
+            nd = todo.pop()
+            if not slots(nd):
+                continue  # names only (make_rhoa, nset = ...[:2] vs make_rhob = ...[0]): legitimately asymmetric
+            ch = channels(nd)
+            if len(ch) == 1:
+                out.append((ch.pop(), norm_text(ast.unparse(nd)), norm_text(ast.unparse(mirror(nd))), st))
+                continue
+            # both channels in one statement (np.stack([f(xa, spin=0), f(xb, spin=1)]), vj[0] + vj[1]): the calls
+            # inside it that address one channel are the units
+            for ch_ in ast.iter_child_nodes(nd):
+                stack = [ch_]
+                while stack:
+                    x = stack.pop()
+                    if isinstance(x, ast.Call):
+                        todo.append(x)
+                    else:
+                        stack.extend(ast.iter_child_nodes(x))
+    return out
+
+
+def spin_mirror_rule(chk, rule, tree, rel, names):
+    from collections import Counter
+    fns = [locate(tree, rel, n) for n in names]
+    ctx = spin_context([f for _, f in fns])
+    for (rel2, fn), name in zip(fns, names):
+        tag, spin_arr = ctx[id(fn)]
+        us = spin_units(fn, tag, spin_arr)
+        cnt = Counter((c, t) for c, t, _m, _s in us)
+        seen = set()
+        for c, t, m, st in us:
+            if (c, t) in seen:
+                continue
+            seen.add((c, t))
+            inst = "%s:%s `%s` <-> `%s`" % (rel2, name, t[:70], m[:70])
+            if cnt[(c, t)] == cnt[(1 - c, m)]:
+                chk.ok(rule, inst)
+            else:
+                chk.violation(rule, rel2, name, t, st.lineno,
+                              "this statement addresses spin channel %d (%d occurrence(s)); its mirror image under "
+                              "the exchange of the spin-tagged locals and of the spin slot 0 <-> 1, `%s`, occurs %d "
+                              "time(s) in %s: the two spin channels are not treated by the same statements (spin-first "
+                              "arrays here: %s)" % (c, cnt[(c, t)], m[:140], cnt[(1 - c, m)], name, sorted(spin_arr)),
+                              instance=inst)
